@@ -7,7 +7,7 @@
 //!   mode = clean | crash | nested
 //! workloads.json: [{"init_idx":[..],"wanted":[..],"rm":[..],"ops":[..]}, ...]
 
-use anda_db::{collection::Collection, database::AndaDB, error::DBError, schema::Fv};
+use anda_db::{collection::Collection, database::AndaDB, error::DBError};
 use object_store::memory::InMemory;
 use serde_json::{Value, json};
 use std::{io::Write, sync::Arc};
@@ -92,73 +92,8 @@ async fn run_workload(w: &Value, crash_at: Option<u64>, nested_at: Option<u64>) 
         let mut call = op.clone();
         call["e"] = json!("call");
         tr.emit(call);
-        let mut ret = json!({"e": "ret", "op": name});
+        let mut ret;
         match name {
-            "add" => match col.add_from(&mk_doc(op["val"].as_u64().unwrap() as usize)).await {
-                Ok(id) => {
-                    ret["ok"] = json!(true);
-                    ret["id"] = json!(id);
-                }
-                Err(e) => {
-                    ret["ok"] = json!(false);
-                    ret["err"] = json!(err_class(&e));
-                }
-            },
-            "update" => match col
-                .update(
-                    op["id"].as_u64().unwrap(),
-                    update_fields(op["val"].as_u64().unwrap() as usize),
-                )
-                .await
-            {
-                Ok(_) => ret["ok"] = json!(true),
-                Err(e) => {
-                    ret["ok"] = json!(false);
-                    ret["err"] = json!(err_class(&e));
-                }
-            },
-            "remove" => match col.remove(op["id"].as_u64().unwrap()).await {
-                Ok(d) => {
-                    ret["ok"] = json!(true);
-                    ret["found"] = json!(d.is_some());
-                }
-                Err(e) => {
-                    ret["ok"] = json!(false);
-                    ret["err"] = json!(err_class(&e));
-                }
-            },
-            "flush" => match col.flush(anda_db::unix_ms()).await {
-                Ok(_) => ret["ok"] = json!(true),
-                Err(e) => {
-                    ret["ok"] = json!(false);
-                    ret["err"] = json!(err_class(&e));
-                }
-            },
-            "ext" => match col
-                .save_extension("x".into(), Fv::U64(op["x"].as_u64().unwrap()))
-                .await
-            {
-                Ok(_) => ret["ok"] = json!(true),
-                Err(e) => {
-                    ret["ok"] = json!(false);
-                    ret["err"] = json!(err_class(&e));
-                }
-            },
-            "compact" => {
-                let idx = op["idx"].as_str().unwrap();
-                let r = if idx == "t" {
-                    col.compact_bm25_index(&["t"]).await
-                } else {
-                    col.compact_btree_index(&[idx]).await
-                };
-                match r {
-                    Ok(_) => ret["ok"] = json!(true),
-                    Err(e) => {
-                        ret["ok"] = json!(false);
-                        ret["err"] = json!(err_class(&e));
-                    }
-                }
-            }
             "reopen" => {
                 // clean close of the whole database, then a fresh open
                 drop(col);
@@ -183,7 +118,9 @@ async fn run_workload(w: &Value, crash_at: Option<u64>, nested_at: Option<u64>) 
                     ret = json!({"e": "ret", "op": "close", "ok": false});
                 }
             }
-            other => panic!("unknown op {other}"),
+            _ => {
+                ret = exec_op(&col, op).await;
+            }
         }
         if handle.is_powered_off() {
             crashed = true;
@@ -252,17 +189,6 @@ async fn run_workload(w: &Value, crash_at: Option<u64>, nested_at: Option<u64>) 
         }
     }
     (tr.take_lines(), traced_mutations, recovery_mutations, crashed)
-}
-
-fn err_class(e: &DBError) -> &'static str {
-    match e {
-        DBError::AlreadyExists { .. } => "exists",
-        DBError::NotFound { .. } => "notfound",
-        DBError::Schema { .. } => "schema",
-        DBError::Index { .. } => "index",
-        DBError::Storage { .. } => "storage",
-        _ => "other",
-    }
 }
 
 #[tokio::main(flavor = "current_thread")]
